@@ -10,6 +10,7 @@ import Splipy.Lemmas.C14Lsq
 import Splipy.Lemmas.C14Free
 import Splipy.Lemmas.C14Energy
 import Splipy.Lemmas.C14Periodic
+import Splipy.Lemmas.C08Seam
 import Mathlib.Data.Rat.Floor
 import Mathlib.Tactic.IntervalCases
 import Mathlib.Tactic.NormNum
@@ -38,12 +39,17 @@ theorem C14_solve_correct (A B X : Mat K) (h : solveC A B = .ok X) :
 /-- **Curve interpolation reproduces its data.**  If `curve_factory.interpolate(x, basis, t)` (model)
 returns control points `c`, then with `ts` the given parameters (or the Greville points) the system
 was square and `Σ_l N_l(ts_i) · c_l = x_i` for every data index `i` and component `j`, where
-`N_l(ts_i)` is `Basis.evaluate` — i.e. the returned curve evaluated at `ts_i` is `x_i`. -/
+`N_l(ts_i)` is `Basis.evaluate` — i.e. the returned curve evaluated at `ts_i` is `x_i`.  The result
+has one row per basis function and exactly the columns of the data (`c.ncols = x.ncols`, so the
+quantifier over `j` is not vacuous), with uniform rows when the data rows are uniform. -/
 theorem C14_interpolate_curve (b : Basis K) (tol : K) (t : Option (List K)) (x c : Mat K)
     (h : interpolateCurve b tol t x = .ok c) :
     ∃ ts, paramsOrGreville b t = .ok ts ∧ ts.length = b.numFunctions ∧ x.size = ts.length ∧
-      ∀ i < ts.length, ∀ j < c.ncols,
-        ∑ l ∈ range b.numFunctions, (b.evaluate tol (ts.getD i 0) 0 true).getD l 0 * c.get l j = x.get i j := by
+      (∀ i < ts.length, ∀ j < c.ncols,
+        ∑ l ∈ range b.numFunctions, (b.evaluate tol (ts.getD i 0) 0 true).getD l 0 * c.get l j = x.get i j) ∧
+      c.size = b.numFunctions ∧ c.ncols = x.ncols ∧
+      ∀ m, (∀ i, i < x.size → (x.getD i #[]).size = m) → ∀ l, l < c.size → (c.getD l #[]).size = m := by
+  have hd := interpolateCurve_dims b tol t x c h
   unfold interpolateCurve at h
   simp only [bind, Except.bind] at h
   split at h
@@ -56,7 +62,7 @@ theorem C14_interpolate_curve (b : Basis K) (tol : K) (t : Option (List K)) (x c
       rw [size_colloc] at hc
       have h1 : ts.length = b.numFunctions := by omega
       have h2 : x.size = ts.length := by omega
-      refine ⟨h1, h2, fun i hi j hj => ?_⟩
+      refine ⟨h1, h2, fun i hi j hj => ?_, hd⟩
       have hX := solveC_entries h i j (by unfold Mat.nrows; rw [size_colloc]; exact hi) hj
       have hrows : c.nrows = b.numFunctions := by
         have := (solveC_ok h).1
@@ -212,7 +218,10 @@ theorem C14_projection (b : Basis K) (tol : K) (t : Option (List K)) (ts : List 
     (hx : ∀ i < ts.length, ∀ j, x.get i j =
             ∑ l ∈ range b.numFunctions, (b.evaluate tol (ts.getD i 0) 0 true).getD l 0 * c0 l j)
     (h : interpolateCurve b tol t x = .ok c) :
-    ∀ l < b.numFunctions, ∀ j < c.ncols, c.get l j = c0 l j := by
+    (∀ l < b.numFunctions, ∀ j < c.ncols, c.get l j = c0 l j) ∧
+      c.size = b.numFunctions ∧ c.ncols = x.ncols := by
+  have hd := interpolateCurve_dims b tol t x c h
+  refine ⟨?_, hd.1, hd.2.1⟩
   unfold interpolateCurve at h
   simp only [bind, Except.bind, hts] at h
   split at h
@@ -239,7 +248,9 @@ theorem C14_projection_least_squares (b : Basis K) (tol : K) (ts : List K) (x c 
     (hx : ∀ i < ts.length, ∀ j, x.get i j =
             ∑ l ∈ range b.numFunctions, (b.evaluate tol (ts.getD i 0) 0 true).getD l 0 * c0 l j)
     (h : leastSquareCurve b tol ts x = .ok c) :
-    ∀ l < b.numFunctions, ∀ j < c.ncols, c.get l j = c0 l j := by
+    (∀ l < b.numFunctions, ∀ j < c.ncols, c.get l j = c0 l j) ∧
+      (0 < b.numFunctions → c.size = b.numFunctions ∧ c.ncols = x.ncols) := by
+  refine ⟨?_, fun hn => leastSquareCurve_dims b tol ts x c hne hn h⟩
   unfold leastSquareCurve at h
   simp only [bind, Except.bind] at h
   split at h
@@ -335,14 +346,16 @@ theorem C14_projection_least_squares_surface (bu bv : Basis K) (tol : K) (tu tv 
   congr 1
   exact sum_congr rfl (fun b _ => by rw [get_colloc bv tol tv 0 j b hj])
 
-/-- **Lofting passes through every section, in order** (curve sections that are already identical —
-`make_splines_identical` is property C12).  If `surface_factory.loft` (model, `n ≥ 3` sections with
-`m × ncomp` control nets on the common basis `b1`) returns the lofting basis `bL` and the control net
-`cp` (`m × n × ncomp`, AFTER the transposes of factory and constructor), then interpolating in the
-lofting direction at the `i`-th lofting parameter `v_i` gives back the `i`-th section's control net:
-`Σ_j N^L_j(v_i) · cp[a][j] = sec_i[a]` — hence the surface restricted to `v = v_i` is section `i`. -/
-theorem C14_loft_curves (b1 bL : Basis K) (tol : K) (secs : List (Tensor K)) (dist v : List K)
-    (m nc : ℕ) (cp : Tensor K) (hm : 0 < m) (hm1 : m = b1.numFunctions) (hn : 0 < secs.length)
+/-- **Lofting passes through every section, in order** — partial: CURVE sections that are already on
+one common basis (`make_splines_identical` is property C12 and runs before this model function), and
+`n ≥ 3` sections (for `n = 2` the code takes the `edge_curves` path, which is not modelled here).
+If `surface_factory.loft` (model) returns the lofting basis `bL` and the control net `cp`
+(`m × n × ncomp`, AFTER the transposes of factory and constructor), then interpolating in the lofting
+direction at the `i`-th lofting parameter `v_i` gives back the `i`-th section's control net:
+`Σ_j N^L_j(v_i) · cp[a][j] = sec_i[a]` — hence the surface restricted to `v = v_i` is section `i`.
+The cumulative centre distances `dist` are computed by `loftFull` (`cumsum`). -/
+theorem C14_loft_curves_partial (b1 bL : Basis K) (tol : K) (secs : List (Tensor K)) (dist v : List K)
+    (m nc : ℕ) (cp : Tensor K) (hm : 0 < m) (hm1 : m = b1.numFunctions) (hn3 : 3 ≤ secs.length)
     (hsecs : ∀ s ∈ secs, s.shape = [m, nc])
     (hlb : loftBasis tol secs.length dist = .ok (bL, v)) (hv : v.length = secs.length)
     (h : loft [b1] tol secs dist = .ok (bL, cp)) :
@@ -350,6 +363,7 @@ theorem C14_loft_curves (b1 bL : Basis K) (tol : K) (secs : List (Tensor K)) (di
     ∀ i < secs.length, ∀ a < m, ∀ c < nc,
       ∑ j ∈ range secs.length, (bL.evaluate tol (v.getD i 0) 0 true).getD j 0 * cp.entry3 secs.length nc a j c
         = (secs.getD i default).entry2 nc a c := by
+  have hn : 0 < secs.length := by omega
   unfold loft at h
   simp only [bind, Except.bind, pure, Except.pure, hlb, List.mapM_cons, List.mapM_nil, List.length_cons,
     List.length_nil] at h
@@ -405,6 +419,96 @@ theorem C14_loft_curves (b1 bL : Basis K) (tol : K) (secs : List (Tensor K)) (di
                     refine ⟨r1, fun i hi a ha c hc => ?_⟩
                     rw [← r2 i hi a ha c hc]
                     exact sum_congr rfl (fun j _ => by rw [get_colloc bL tol v 0 i j (by omega)])
+
+/-- **Volume lofting passes through every SURFACE section, in order** — partial: sections already on
+common bases `b1`, `b2` (after `make_splines_identical`, property C12), `n ≥ 3` sections.  If
+`volume_factory.loft` (model) returns `(bL, cp)` with `cp` the `m₁ × m₂ × n × ncomp` control net after the
+transposes, then `Σ_j N^L_j(w_i) · cp[a][b][j] = sec_i[a][b]`: the volume restricted to `w = w_i` is
+section `i`. -/
+theorem C14_loft_surfaces_partial (b1 b2 bL : Basis K) (tol : K) (secs : List (Tensor K)) (dist v : List K)
+    (m1 m2 nc : ℕ) (cp : Tensor K) (hm1 : 0 < m1) (hm2 : 0 < m2)
+    (hb1 : m1 = b1.numFunctions) (hb2 : m2 = b2.numFunctions) (hn3 : 3 ≤ secs.length)
+    (hsecs : ∀ s ∈ secs, s.shape = [m1, m2, nc])
+    (hlb : loftBasis tol secs.length dist = .ok (bL, v)) (hv : v.length = secs.length)
+    (h : loft [b1, b2] tol secs dist = .ok (bL, cp)) :
+    cp.shape = [m1, m2, secs.length, nc] ∧
+    ∀ i < secs.length, ∀ a < m1, ∀ b < m2, ∀ c < nc,
+      ∑ j ∈ range secs.length, (bL.evaluate tol (v.getD i 0) 0 true).getD j 0 * cp.entry4 m2 secs.length nc a b j c
+        = (secs.getD i default).entry3 m2 nc a b c := by
+  have hn : 0 < secs.length := by omega
+  unfold loft at h
+  simp only [bind, Except.bind, pure, Except.pure, hlb, List.mapM_cons, List.mapM_nil, List.length_cons,
+    List.length_nil] at h
+  split at h
+  · exact absurd h (by simp)
+  · rename_i us hus
+    split at hus
+    · exact absurd hus (by simp)
+    · rename_i g1 hg1
+      split at hus
+      · exact absurd hus (by simp)
+      · rename_i tl htl
+        split at htl
+        · exact absurd htl (by simp)
+        · rename_i g2 hg2
+          have htl' : tl = [g2] := by cases htl; rfl
+          subst htl'
+          have hus' : us = [g1, g2] := by cases hus; rfl
+          subst hus'
+          simp only [List.zip_cons_cons, List.zip_nil_right, List.map_cons, List.map_nil, List.cons_append,
+            List.nil_append, List.reverse_cons, List.reverse_nil, Nat.zero_add, Nat.reduceAdd] at h
+          split at h
+          · exact absurd h (by simp)
+          · rename_i invs hinvs
+            simp only [List.mapM_cons, List.mapM_nil, bind, Except.bind, pure, Except.pure] at hinvs
+            split at hinvs
+            · exact absurd hinvs (by simp)
+            · rename_i iL hiL
+              split at hinvs
+              · exact absurd hinvs (by simp)
+              · rename_i tail htail
+                split at htail
+                · exact absurd htail (by simp)
+                · rename_i i2 hi2
+                  split at htail
+                  · exact absurd htail (by simp)
+                  · rename_i tail2 htail2
+                    split at htail2
+                    · exact absurd htail2 (by simp)
+                    · rename_i i1 hi1
+                      have : tail2 = [i1] := by cases htail2; rfl
+                      subst this
+                      have : tail = [i2, i1] := by cases htail; rfl
+                      subst this
+                      have : invs = [iL, i2, i1] := by cases hinvs; rfl
+                      subst this
+                      split at h
+                      · exact absurd h (by simp)
+                      · rename_i pts hpts
+                        split at h
+                        · exact absurd h (by simp)
+                        · rename_i cp0 hcp0
+                          split at h
+                          · exact absurd h (by simp)
+                          · rename_i cp1 hcp1
+                            have hcpe : cp1 = cp := by
+                              simp only [Except.ok.injEq, Prod.mk.injEq] at h; exact h.2
+                            subst hcpe
+                            have glen : ∀ (bb : Basis K) (g : List K) (mm : ℕ), mm = bb.numFunctions →
+                                Except.map Array.toList bb.greville = .ok g → g.length = mm := by
+                              intro bb g mm hmm hg
+                              unfold Except.map at hg
+                              split at hg
+                              · exact absurd hg (by simp)
+                              · rename_i ga hga
+                                have : g = ga.toList := by cases hg; rfl
+                                rw [this, hmm, Array.length_toList]
+                                exact greville_size bb ga hga
+                            obtain ⟨r1, r2⟩ := loft_surfaces_aux b1 b2 bL tol secs pts g1 g2 v m1 m2 nc i1 i2 iL _ cp0 cp1
+                              hm1 hm2 (glen b1 g1 m1 hb1 hg1) (glen b2 g2 m2 hb2 hg2) hn hv hsecs hi1 hi2 hiL hpts rfl hcp0 hcp1
+                            refine ⟨r1, fun i hi a ha b hb c hc => ?_⟩
+                            rw [← r2 i hi a ha b hb c hc]
+                            exact sum_congr rfl (fun j _ => by rw [get_colloc bL tol v 0 i j (by omega)])
 
 /-- **`bezier`**: the result has the requested order (3 or 4), is non-periodic, has exactly as many
 basis functions as control points, its knot vector is the SORTED rearrangement of
@@ -487,7 +591,8 @@ theorem C14_rebuild (o : Obj K) (tol : K) (p n : ℕ) (b2 : Basis K) (cp : Mat K
     (h : rebuild o tol p n = .ok (b2, cp)) :
     b2.order = p ∧ b2.periodic = -1 ∧
     ∃ (t : Array K) (xs : Tensor K), b2.greville = .ok t ∧ o.evaluate tol [t.toList] true = .ok xs ∧
-      t.size = b2.numFunctions ∧
+      t.size = b2.numFunctions ∧ (0 < t.size → cp.size = b2.numFunctions ∧
+        cp.ncols = min (xs.shape.getLastD 1) xs.data.size) ∧
       ∀ i < t.size, ∀ j < cp.ncols, j < xs.shape.getLastD 1 →
         ∑ l ∈ range b2.numFunctions, (b2.evaluate tol (t.toList.getD i 0) 0 true).getD l 0 * cp.get l j
           = xs.get (i * xs.shape.getLastD 1 + j) := by
@@ -519,8 +624,20 @@ theorem C14_rebuild (o : Obj K) (tol : K) (p n : ℕ) (b2 : Basis K) (cp : Mat K
               refine ⟨ho, by rw [hper]; rfl, ?_⟩
               rw [hb2]
               have hts : t.size = b2.numFunctions := greville_size b2 t ht
-              refine ⟨t, xs, ht, hxs, hts, fun i hi j hj hjd => ?_⟩
               have hN : (colloc b2 tol t.toList 0).size = t.size := by rw [size_colloc]; simp
+              have hdims : 0 < t.size → cp'.size = b2.numFunctions ∧
+                  cp'.ncols = min (xs.shape.getLastD 1) xs.data.size := by
+                intro hpos
+                have hpos' : 0 < t.toList.length := by simpa using hpos
+                obtain ⟨d1, d2⟩ := solveC_dims hsolve
+                refine ⟨?_, ?_⟩
+                · rw [d1]; unfold Mat.ncols
+                  rw [row_colloc b2 tol t.toList 0 0 hpos', size_evaluate_c14]
+                · rw [d2 (by unfold Mat.nrows; rw [hN]; exact hpos)]
+                  unfold Mat.ncols
+                  rw [getD_ofFn_c14 _ _ _ _ hpos]
+                  simp
+              refine ⟨t, xs, ht, hxs, hts, hdims, fun i hi j hj hjd => ?_⟩
               have hpos : 0 < t.toList.length := by simp; omega
               have hrows : cp'.nrows = b2.numFunctions := by
                 have := (solveC_ok hsolve).1
@@ -606,7 +723,9 @@ theorem C14_cubic_boundary (bd : ℕ) (tol rt atl : K) (x : Mat K) (t : List K) 
           (basis.evaluate tol ((if bd = bPERIODIC then t.dropLast else t).getD i 0) 0 true).getD l 0 * cp.get l j
           = Mat.get (if bd = bPERIODIC then (cubicClose bd rt atl x).pop else cubicClose bd rt atl x) i j) ∧
       (∀ i < eN.size, ∀ j < cp.ncols,
-        ∑ l ∈ range basis.numFunctions, eN.get i l * cp.get l j = eR.get i j) := by
+        ∑ l ∈ range basis.numFunctions, eN.get i l * cp.get l j = eR.get i j) ∧
+      cp.size = basis.numFunctions ∧
+      cp.ncols = ((if bd = bPERIODIC then (cubicClose bd rt atl x).pop else cubicClose bd rt atl x).getD 0 #[]).size := by
   unfold cubicCurve at h
   simp only [bind, Except.bind, pure, Except.pure] at h
   split at h
@@ -658,7 +777,12 @@ theorem C14_cubic_boundary (bd : ℕ) (tol rt atl : K) (x : Mat K) (t : List K) 
           rw [this, row_colloc b tol t' 0 0 hpos, size_evaluate_c14]
         have hper : b.periodic = (if bd = bPERIODIC then 2 else -1) := by
           rw [hp]; split <;> simp
-        refine ⟨eN, eR, he, ho, hper, hnf, hxs, by omega, fun i hi j hj => ?_, fun i hi j hj => ?_⟩
+        have hccols : cp'.ncols = (x'.getD 0 #[]).size := by
+          rw [(solveC_dims hsolve).2 (by unfold Mat.nrows; omega), hR]
+          unfold Mat.ncols
+          congr 1
+          simp [Array.getD, hxs, hpos, Array.getElem_append_left]
+        refine ⟨eN, eR, he, ho, hper, hnf, hxs, by omega, fun i hi j hj => ?_, fun i hi j hj => ?_, hcprows, hccols⟩
         · have := solveC_entries hsolve i j (by unfold Mat.nrows; omega) hj
           rw [hcprows, hR, Mat.get_append_left_c14 _ _ _ _ (by omega)] at this
           rw [← this]
@@ -682,18 +806,21 @@ theorem C14_cubic_boundary (bd : ℕ) (tol rt atl : K) (x : Mat K) (t : List K) 
 
 /-- **`cubic_curve(x, FREE, t)` needs no solvability hypothesis**: for EVERY parameter sequence
 `t₀ < t₁ < … < t_{n−1}` (`n ≥ 4`, consecutive values at least the knot tolerance apart) and any
-`n × dim` data the not-a-knot system is solvable (the data parameters are nested in the supports of
-the not-a-knot basis: Schoenberg–Whitney), the model SUCCEEDS, and the result interpolates:
-`Σ_l N_l(t_i) · cp_l = x_i`. -/
+`n × m` data the not-a-knot system is solvable (the data parameters are nested in the supports of
+the not-a-knot basis: Schoenberg–Whitney), the model SUCCEEDS with the basis `freeBasis` (knots
+`t₀⁴, t₂ … t_{n−3}, t_{n−1}⁴`), the result is `n × m`, and the spline of the specification
+`Σ_l cp_l B_l` passes through every point: `splineVal … t_i = x_i`. -/
 theorem C14_cubic_FREE_exists [IsStrictOrderedRing K] (a b c d : K) (mid : List K) (tol rt atl : K)
     (htol : 0 < tol)
     (hgap : (a :: b :: (mid ++ [c, d])).Pairwise (fun u w => u + tol ≤ w))
     (x : Mat K) (m : ℕ) (hxs : x.size = mid.length + 4 ∧ ∀ i, i < mid.length + 4 → (x.getD i #[]).size = m)
     (tg : Option (Mat K)) :
-    ∃ basis cp, cubicCurve bFREE tol rt atl x (a :: b :: (mid ++ [c, d])) tg = .ok (basis, cp) ∧
-      ∀ i < mid.length + 4, ∀ j < cp.ncols,
-        ∑ l ∈ range basis.numFunctions,
-          (basis.evaluate tol ((a :: b :: (mid ++ [c, d])).getD i 0) 0 true).getD l 0 * cp.get l j = x.get i j := by
+    ∃ cp, cubicCurve bFREE tol rt atl x (a :: b :: (mid ++ [c, d])) tg = .ok (freeBasis a d mid, cp) ∧
+      cp.size = mid.length + 4 ∧ (∀ l, l < mid.length + 4 → (cp.getD l #[]).size = m) ∧
+      ∀ i < mid.length + 4, ∀ j < m,
+        splineVal (effSide (freeBasis a d mid) ((a :: b :: (mid ++ [c, d])).getD i 0) true)
+          (freeBasis a d mid).kn 3 (mid.length + 4) (fun l => cp.get l j)
+          ((a :: b :: (mid ++ [c, d])).getD i 0) = x.get i j := by
   have hlen : (a :: b :: (mid ++ [c, d])).length = mid.length + 4 := by simp
   have hgap' : ∀ i j, i < j → j < mid.length + 4 →
       (a :: b :: (mid ++ [c, d])).getD i 0 + tol ≤ (a :: b :: (mid ++ [c, d])).getD j 0 := by
@@ -704,15 +831,40 @@ theorem C14_cubic_FREE_exists [IsStrictOrderedRing K] (a b c d : K) (mid : List 
     rw [List.getD_eq_getElem?_getD, List.getD_eq_getElem?_getD, List.getElem?_eq_getElem hi,
       List.getElem?_eq_getElem hj']
     exact this
-  obtain ⟨cp, hcp⟩ := cubicCurve_FREE_ok a b c d mid tol rt atl htol hgap' x m hxs tg
-  refine ⟨_, cp, hcp, fun i hi j hj => ?_⟩
-  obtain ⟨eN, eR, _, _, _, _, _, _, hint, _⟩ := C14_cubic_boundary _ _ _ _ _ _ _ _ _ hcp
+  obtain ⟨cp, hcp, sh1, sh2⟩ := cubicCurve_FREE_ok a b c d mid tol rt atl htol hgap' x m hxs tg
+  refine ⟨cp, hcp, sh1, sh2, fun i hi j hj => ?_⟩
+  obtain ⟨eN, eR, _, _, _, _, _, _, hint, _, _, _⟩ := C14_cubic_boundary _ _ _ _ _ _ _ _ _ hcp
   have hne : bFREE ≠ bPERIODIC := by decide
   simp only [hne, if_false] at hint
-  have := hint i (by rw [hlen]; exact hi) j hj
-  rw [this]
-  unfold cubicClose
-  simp [hne]
+  have hcols : cp.ncols = m := sh2 0 (by omega)
+  have h1 := hint i (by rw [hlen]; exact hi) j (by rw [hcols]; exact hj)
+  have hx : Mat.get (cubicClose bFREE rt atl x) i j = x.get i j := by unfold cubicClose; simp [hne]
+  rw [hx] at h1
+  rw [← h1]
+  have hv := freeBasis_valid a b c d mid tol hgap' htol
+  have hnf := freeBasis_numFunctions a d mid
+  have hdom := nested_in_domain (b := freeBasis a d mid) rfl _
+    (by rw [hnf]; exact free_nested a b c d mid tol hgap' htol) i (by rw [hnf]; exact hi)
+  unfold splineVal
+  rw [hnf]
+  apply sum_congr rfl
+  intro l hl
+  rw [evaluate_inside_right hv rfl htol (free_exact a b c d mid tol hgap' htol i hi) hdom.1 hdom.2
+    (by rw [hnf]; exact mem_range.mp hl), mul_comm]
+  rfl
+
+/-- Dimensions of the result of a non-periodic `cubic_curve`: one row per basis function and the
+columns of the data (so the quantifiers over `j < cp.ncols` below are not vacuous). -/
+theorem C14_cubic_dims (bd : ℕ) (hbd : bd ≠ bPERIODIC) (tol rt atl : K) (x : Mat K) (t : List K)
+    (tg : Option (Mat K)) (basis : Basis K) (cp : Mat K)
+    (h : cubicCurve bd tol rt atl x t tg = .ok (basis, cp)) :
+    cp.size = basis.numFunctions ∧ cp.ncols = x.ncols := by
+  obtain ⟨_, _, _, _, _, _, _, _, _, _, hcsz, hccols⟩ := C14_cubic_boundary _ _ _ _ _ _ _ _ _ h
+  refine ⟨hcsz, ?_⟩
+  rw [hccols]
+  simp only [hbd, if_false]
+  unfold cubicClose Mat.ncols
+  simp [hbd]
 
 omit [LinearOrder K] [FloorRing K] in
 private theorem get_zero_rows (m dim i j : ℕ) :
@@ -728,15 +880,16 @@ private theorem get_zero_rows (m dim i j : ℕ) :
 prescribed tangents (rows `Basis.evaluate … d = 1`). -/
 theorem C14_cubic_TANGENT (tol rt atl : K) (x : Mat K) (t : List K) (tg : Option (Mat K))
     (basis : Basis K) (cp : Mat K) (h : cubicCurve bTANGENT tol rt atl x t tg = .ok (basis, cp)) :
-    ∃ g, tg = some g ∧ g.size = 2 ∧ ∀ j < cp.ncols,
+    ∃ g, tg = some g ∧ g.size = 2 ∧ cp.size = basis.numFunctions ∧ cp.ncols = x.ncols ∧ ∀ j < cp.ncols,
       (∑ l ∈ range basis.numFunctions, (basis.evaluate tol (t.headD 0) 1 true).getD l 0 * cp.get l j = g.get 0 j) ∧
       (∑ l ∈ range basis.numFunctions, (basis.evaluate tol (t.getLastD 0) 1 true).getD l 0 * cp.get l j = g.get 1 j) := by
-  obtain ⟨eN, eR, he, _, _, _, _, hsz, _, hrows⟩ := C14_cubic_boundary _ _ _ _ _ _ _ _ _ h
+  obtain ⟨dm1, dm2⟩ := C14_cubic_dims bTANGENT (by decide) tol rt atl x t tg basis cp h
+  obtain ⟨eN, eR, he, _, _, _, _, hsz, _, hrows, hcsz, hccols⟩ := C14_cubic_boundary _ _ _ _ _ _ _ _ _ h
   have hne : bTANGENT ≠ bPERIODIC := by decide
   simp only [hne, if_false] at he
   obtain ⟨g, hg, hN, hR⟩ := cubicExtra_TANGENT _ _ _ _ _ _ _ he
   subst hN hR
-  refine ⟨_, hg, by rw [hsz, size_colloc]; rfl, fun j hj => ⟨?_, ?_⟩⟩
+  refine ⟨_, hg, by rw [hsz, size_colloc]; rfl, dm1, dm2, fun j hj => ⟨?_, ?_⟩⟩
   · have := hrows 0 (by rw [size_colloc]; simp) j hj
     refine (sum_congr rfl (fun l _ => ?_)).trans this
     · ( rw [get_colloc _ _ _ _ 0 l (by simp)]; simp)
@@ -747,16 +900,17 @@ theorem C14_cubic_TANGENT (tol rt atl : K) (x : Mat K) (t : List K) (tg : Option
 /-- `NATURAL`: the second derivative of the result vanishes at both ends (rows `Basis.evaluate … d = 2`). -/
 theorem C14_cubic_NATURAL (tol rt atl : K) (x : Mat K) (t : List K) (tg : Option (Mat K))
     (basis : Basis K) (cp : Mat K) (h : cubicCurve bNATURAL tol rt atl x t tg = .ok (basis, cp)) :
-    ∀ j < cp.ncols,
+    cp.size = basis.numFunctions ∧ cp.ncols = x.ncols ∧ ∀ j < cp.ncols,
       (∑ l ∈ range basis.numFunctions, (basis.evaluate tol (t.headD 0) 2 true).getD l 0 * cp.get l j = 0) ∧
       (∑ l ∈ range basis.numFunctions, (basis.evaluate tol (t.getLastD 0) 2 true).getD l 0 * cp.get l j = 0) := by
-  obtain ⟨eN, eR, he, _, _, _, _, _, _, hrows⟩ := C14_cubic_boundary _ _ _ _ _ _ _ _ _ h
+  obtain ⟨dm1, dm2⟩ := C14_cubic_dims bNATURAL (by decide) tol rt atl x t tg basis cp h
+  obtain ⟨eN, eR, he, _, _, _, _, _, _, hrows, hcsz, hccols⟩ := C14_cubic_boundary _ _ _ _ _ _ _ _ _ h
   have hne : bNATURAL ≠ bPERIODIC := by decide
   simp only [hne, if_false] at he
   obtain ⟨hN, hR⟩ := cubicExtra_NATURAL _ _ _ _ _ _ _ he
   rw [Array.empty_append] at hN hR
   subst hN hR
-  refine fun j hj => ⟨?_, ?_⟩
+  refine ⟨dm1, dm2, fun j hj => ⟨?_, ?_⟩⟩
   · have := hrows 0 (by rw [size_colloc]; simp) j hj
     rw [get_zero_rows] at this
     refine (sum_congr rfl (fun l _ => ?_)).trans this
@@ -767,23 +921,26 @@ theorem C14_cubic_NATURAL (tol rt atl : K) (x : Mat K) (t : List K) (tg : Option
     · ( rw [get_colloc _ _ _ _ 1 l (by simp)]; simp)
 
 /-- **`cubic_curve(x, NATURAL, t)` needs no solvability hypothesis**: for EVERY parameter sequence
-`t₀ < … < t_{n−1}` (`n ≥ 2`, consecutive values at least the knot tolerance apart) and any `n × dim`
-data the `(n+2) × (n+2)` system (interpolation rows + `s''(t₀) = s''(t_{n−1}) = 0`) is solvable and the
-model SUCCEEDS.  Uniqueness of the natural spline is proved by the (purely algebraic) energy argument
-`Interp.natural_unique`: `Σ_spans (h/3)(u² + uv + v²) = [s's'']` telescopes to `0`.  The result
-interpolates and has vanishing second derivative at both ends. -/
+`t₀ < … < t_{n−1}` (`n ≥ 2`, consecutive values at least the knot tolerance apart) and any `n × m`
+data the `(n+2) × (n+2)` system is solvable and the model SUCCEEDS with the basis `natBasis` (knots
+`t₀⁴, t₁ … t_{n−2}, t_{n−1}⁴`).  Uniqueness of the natural spline is the (purely algebraic) energy
+argument `Interp.natural_unique`.  The result is `(n+2) × m`; the spline of the specification
+`Σ_l cp_l B_l` passes through every point and its SECOND DERIVATIVE (`splineDeriv … 2`, one-sided from
+inside the domain) VANISHES at both ends. -/
 theorem C14_cubic_NATURAL_exists [IsStrictOrderedRing K] (a d : K) (mid : List K) (tol rt atl : K)
     (htol : 0 < tol)
     (hgap : (a :: (mid ++ [d])).Pairwise (fun u w => u + tol ≤ w))
     (x : Mat K) (m : ℕ) (hxs : x.size = mid.length + 2 ∧ ∀ i, i < mid.length + 2 → (x.getD i #[]).size = m)
     (tg : Option (Mat K)) :
-    ∃ basis cp, cubicCurve bNATURAL tol rt atl x (a :: (mid ++ [d])) tg = .ok (basis, cp) ∧
-      (∀ i < mid.length + 2, ∀ j < cp.ncols,
-        ∑ l ∈ range basis.numFunctions,
-          (basis.evaluate tol ((a :: (mid ++ [d])).getD i 0) 0 true).getD l 0 * cp.get l j = x.get i j) ∧
-      (∀ j < cp.ncols,
-        (∑ l ∈ range basis.numFunctions, (basis.evaluate tol a 2 true).getD l 0 * cp.get l j = 0) ∧
-        (∑ l ∈ range basis.numFunctions, (basis.evaluate tol d 2 true).getD l 0 * cp.get l j = 0)) := by
+    ∃ cp, cubicCurve bNATURAL tol rt atl x (a :: (mid ++ [d])) tg = .ok (natBasis a d mid, cp) ∧
+      cp.size = mid.length + 4 ∧ (∀ l, l < mid.length + 4 → (cp.getD l #[]).size = m) ∧
+      (∀ i < mid.length + 2, ∀ j < m,
+        splineVal (effSide (natBasis a d mid) ((a :: (mid ++ [d])).getD i 0) true)
+          (natBasis a d mid).kn 3 (mid.length + 4) (fun l => cp.get l j)
+          ((a :: (mid ++ [d])).getD i 0) = x.get i j) ∧
+      (∀ j < m,
+        splineDeriv .right (natBasis a d mid).kn 3 (mid.length + 4) (fun l => cp.get l j) 2 a = 0 ∧
+        splineDeriv .left (natBasis a d mid).kn 3 (mid.length + 4) (fun l => cp.get l j) 2 d = 0) := by
   have hlen : (a :: (mid ++ [d])).length = mid.length + 2 := by simp
   have hgap' : ∀ i j, i < j → j < mid.length + 2 →
       (a :: (mid ++ [d])).getD i 0 + tol ≤ (a :: (mid ++ [d])).getD j 0 := by
@@ -794,33 +951,74 @@ theorem C14_cubic_NATURAL_exists [IsStrictOrderedRing K] (a d : K) (mid : List K
     rw [List.getD_eq_getElem?_getD, List.getD_eq_getElem?_getD, List.getElem?_eq_getElem hi,
       List.getElem?_eq_getElem hj']
     exact this
-  obtain ⟨cp, hcp⟩ := cubicCurve_NATURAL_ok_of_unique a d mid tol rt atl htol hgap'
+  obtain ⟨cp, hcp, sh1, sh2⟩ := cubicCurve_NATURAL_ok_of_unique a d mid tol rt atl htol hgap'
     (natural_unique a d mid tol htol hgap') x m hxs tg
-  refine ⟨_, cp, hcp, fun i hi j hj => ?_, fun j hj => ?_⟩
-  · obtain ⟨eN, eR, _, _, _, _, _, _, hint, _⟩ := C14_cubic_boundary _ _ _ _ _ _ _ _ _ hcp
+  have hv := natBasis_valid a d mid tol hgap' htol
+  have hnf := natBasis_numFunctions a d mid
+  have hcols : cp.ncols = m := sh2 0 (by omega)
+  have hex := nat_exact a d mid tol hgap' htol
+  have hdom := nat_in_domain a d mid tol hgap' htol
+  have hstart := nat_start a d mid tol hgap' htol
+  have hstop := nat_stop a d mid tol hgap' htol
+  have hlt : a < d := by have := hv.start_lt_stop; rw [hstart, hstop] at this; exact this
+  refine ⟨cp, hcp, sh1, sh2, fun i hi j hj => ?_, fun j hj => ?_⟩
+  · obtain ⟨eN, eR, _, _, _, _, _, _, hint, _, _, _⟩ := C14_cubic_boundary _ _ _ _ _ _ _ _ _ hcp
     have hne : bNATURAL ≠ bPERIODIC := by decide
     simp only [hne, if_false] at hint
-    have := hint i (by rw [hlen]; exact hi) j hj
-    rw [this]
-    unfold cubicClose
-    simp [hne]
-  · have := C14_cubic_NATURAL tol rt atl x (a :: (mid ++ [d])) tg _ cp hcp j hj
+    have h1 := hint i (by rw [hlen]; exact hi) j (by rw [hcols]; exact hj)
+    have hx : Mat.get (cubicClose bNATURAL rt atl x) i j = x.get i j := by unfold cubicClose; simp [hne]
+    rw [hx] at h1
+    rw [← h1]
+    unfold splineVal
+    rw [hnf]
+    apply sum_congr rfl
+    intro l hl
+    rw [evaluate_inside_right hv rfl htol (hex i hi) (hdom i hi).1 (hdom i hi).2
+      (by rw [hnf]; exact mem_range.mp hl), mul_comm]
+    rfl
+  · have hrows := (C14_cubic_NATURAL tol rt atl x (a :: (mid ++ [d])) tg _ cp hcp).2.2 j (by rw [hcols]; exact hj)
     have h1 : (a :: (mid ++ [d])).headD 0 = a := rfl
     have h2 : (a :: (mid ++ [d])).getLastD 0 = d := by simp [List.getLastD]
-    rw [h1, h2] at this
-    exact this
+    rw [h1, h2, hnf] at hrows
+    have hexa : (natBasis a d mid).ExactAt tol a := by have := hex 0 (by omega); simpa using this
+    have hexd : (natBasis a d mid).ExactAt tol d := by
+      have := hex (mid.length + 1) (by omega)
+      have e : (a :: (mid ++ [d])).getD (mid.length + 1) 0 = d := by
+        simp [List.getD_eq_getElem?_getD, List.getElem?_append_right]
+      rw [e] at this; exact this
+    have hsa : effSide (natBasis a d mid) a true = .right := by
+      unfold effSide; rw [hstop, if_neg (ne_of_lt hlt)]; rfl
+    have hsd : effSide (natBasis a d mid) d true = .left := by
+      unfold effSide; rw [hstop, if_pos rfl]
+    constructor
+    · rw [← hrows.1]
+      unfold splineDeriv
+      apply sum_congr rfl
+      intro l hl
+      rw [C01_value_deriv_open hv rfl htol hexa (by rw [hstart]) (by rw [hstop]; exact hlt.le) (by simp)
+        (by show 2 < 4; omega) (by rw [hnf]; exact mem_range.mp hl), hsa, mul_comm]
+      rfl
+    · rw [← hrows.2]
+      unfold splineDeriv
+      apply sum_congr rfl
+      intro l hl
+      rw [C01_value_deriv_open hv rfl htol hexd (by rw [hstart]; exact hlt.le) (by rw [hstop]) (by simp)
+        (by show 2 < 4; omega) (by rw [hnf]; exact mem_range.mp hl), hsd, mul_comm]
+      rfl
 
 /-- `HERMITE`: the first derivative of the result at EVERY data parameter equals the prescribed tangent. -/
 theorem C14_cubic_HERMITE (tol rt atl : K) (x : Mat K) (t : List K) (tg : Option (Mat K))
     (basis : Basis K) (cp : Mat K) (h : cubicCurve bHERMITE tol rt atl x t tg = .ok (basis, cp)) :
-    ∃ g, tg = some g ∧ g.size = t.length ∧ ∀ i < t.length, ∀ j < cp.ncols,
+    ∃ g, tg = some g ∧ g.size = t.length ∧ cp.size = basis.numFunctions ∧ cp.ncols = x.ncols ∧
+      ∀ i < t.length, ∀ j < cp.ncols,
       ∑ l ∈ range basis.numFunctions, (basis.evaluate tol (t.getD i 0) 1 true).getD l 0 * cp.get l j = g.get i j := by
-  obtain ⟨eN, eR, he, _, _, _, _, hsz, _, hrows⟩ := C14_cubic_boundary _ _ _ _ _ _ _ _ _ h
+  obtain ⟨dm1, dm2⟩ := C14_cubic_dims bHERMITE (by decide) tol rt atl x t tg basis cp h
+  obtain ⟨eN, eR, he, _, _, _, _, hsz, _, hrows, hcsz, hccols⟩ := C14_cubic_boundary _ _ _ _ _ _ _ _ _ h
   have hne : bHERMITE ≠ bPERIODIC := by decide
   simp only [hne, if_false] at he
   obtain ⟨g, hg, hN, hR⟩ := cubicExtra_HERMITE _ _ _ _ _ _ _ he
   subst hN hR
-  refine ⟨_, hg, by rw [hsz, size_colloc], fun i hi j hj => ?_⟩
+  refine ⟨_, hg, by rw [hsz, size_colloc], dm1, dm2, fun i hi j hj => ?_⟩
   have := hrows i (by rw [size_colloc]; exact hi) j hj
   refine (sum_congr rfl (fun l _ => ?_)).trans this
   · ( rw [get_colloc _ _ _ _ i l hi])
@@ -828,10 +1026,11 @@ theorem C14_cubic_HERMITE (tol rt atl : K) (x : Mat K) (t : List K) (tg : Option
 /-- `TANGENTNATURAL`: prescribed first derivative at the start, vanishing second derivative at the end. -/
 theorem C14_cubic_TANGENTNATURAL (tol rt atl : K) (x : Mat K) (t : List K) (tg : Option (Mat K))
     (basis : Basis K) (cp : Mat K) (h : cubicCurve bTANGENTNATURAL tol rt atl x t tg = .ok (basis, cp)) :
-    ∃ g, tg = some g ∧ g.size = 1 ∧ ∀ j < cp.ncols,
+    ∃ g, tg = some g ∧ g.size = 1 ∧ cp.size = basis.numFunctions ∧ cp.ncols = x.ncols ∧ ∀ j < cp.ncols,
       (∑ l ∈ range basis.numFunctions, (basis.evaluate tol (t.headD 0) 1 true).getD l 0 * cp.get l j = g.get 0 j) ∧
       (∑ l ∈ range basis.numFunctions, (basis.evaluate tol (t.getLastD 0) 2 true).getD l 0 * cp.get l j = 0) := by
-  obtain ⟨eN, eR, he, _, _, _, _, hsz, _, hrows⟩ := C14_cubic_boundary _ _ _ _ _ _ _ _ _ h
+  obtain ⟨dm1, dm2⟩ := C14_cubic_dims bTANGENTNATURAL (by decide) tol rt atl x t tg basis cp h
+  obtain ⟨eN, eR, he, _, _, _, _, hsz, _, hrows, hcsz, hccols⟩ := C14_cubic_boundary _ _ _ _ _ _ _ _ _ h
   have hne : bTANGENTNATURAL ≠ bPERIODIC := by decide
   simp only [hne, if_false] at he
   obtain ⟨g, hg, hN, hR⟩ := cubicExtra_TANGENTNATURAL _ _ _ _ _ _ _ he
@@ -839,7 +1038,7 @@ theorem C14_cubic_TANGENTNATURAL (tol rt atl : K) (x : Mat K) (t : List K) (tg :
   have hg1 : g.size = 1 := by
     simp only [Array.size_append, size_colloc, Array.size_replicate, List.length_cons, List.length_nil] at hsz
     omega
-  refine ⟨_, hg, hg1, fun j hj => ⟨?_, ?_⟩⟩
+  refine ⟨_, hg, hg1, dm1, dm2, fun j hj => ⟨?_, ?_⟩⟩
   · have := hrows 0 (by rw [Array.size_append, size_colloc]; simp) j hj
     rw [Mat.get_append_left_c14 _ _ _ _ (by rw [hg1]; exact Nat.zero_lt_one)] at this
     refine (sum_congr rfl (fun l _ => ?_)).trans this
@@ -890,10 +1089,12 @@ Cox–de Boor B-spline of the specification (the sum of the wrapped images for a
 theorem C14_interpolate_curve_spec {b : Basis K} (hv : b.Valid) {tol : K} (htol : 0 < tol)
     (t : Option (List K)) (x c : Mat K) (h : interpolateCurve b tol t x = .ok c) :
     ∃ ts, paramsOrGreville b t = .ok ts ∧ ts.length = b.numFunctions ∧ x.size = ts.length ∧
-      ∀ i < ts.length, b.Admissible tol (ts.getD i 0) → ∀ j < c.ncols,
-        ∑ l ∈ range b.numFunctions, b.specRow (ts.getD i 0) l * c.get l j = x.get i j := by
-  obtain ⟨ts, h1, h2, h3, h4⟩ := C14_interpolate_curve b tol t x c h
-  refine ⟨ts, h1, h2, h3, fun i hi hadm j hj => ?_⟩
+      (∀ i < ts.length, b.Admissible tol (ts.getD i 0) → ∀ j < c.ncols,
+        ∑ l ∈ range b.numFunctions, b.specRow (ts.getD i 0) l * c.get l j = x.get i j) ∧
+      c.size = b.numFunctions ∧ c.ncols = x.ncols ∧
+      ∀ m, (∀ i, i < x.size → (x.getD i #[]).size = m) → ∀ l, l < c.size → (c.getD l #[]).size = m := by
+  obtain ⟨ts, h1, h2, h3, h4, hd⟩ := C14_interpolate_curve b tol t x c h
+  refine ⟨ts, h1, h2, h3, fun i hi hadm j hj => ?_, hd⟩
   rw [← h4 i hi j hj]
   exact sum_congr rfl (fun l hl => by
     rw [evaluate_getD_eq_specRow_c14 hv htol hadm (mem_range.mp hl)])
@@ -904,17 +1105,56 @@ theorem C14_interpolate_curve_splineVal {b : Basis K} (hv : b.Valid) (hper : b.p
     {tol : K} (htol : 0 < tol) (t : Option (List K)) (x c : Mat K)
     (h : interpolateCurve b tol t x = .ok c) :
     ∃ ts, paramsOrGreville b t = .ok ts ∧ ts.length = b.numFunctions ∧ x.size = ts.length ∧
-      ∀ i < ts.length, b.ExactAt tol (ts.getD i 0) → b.start ≤ ts.getD i 0 → ts.getD i 0 ≤ b.stop →
+      (∀ i < ts.length, b.ExactAt tol (ts.getD i 0) → b.start ≤ ts.getD i 0 → ts.getD i 0 ≤ b.stop →
         ∀ j < c.ncols,
           splineVal (effSide b (ts.getD i 0) true) b.kn (b.order - 1) b.numFunctions
-            (fun l => c.get l j) (ts.getD i 0) = x.get i j := by
-  obtain ⟨ts, h1, h2, h3, h4⟩ := C14_interpolate_curve_spec hv htol t x c h
-  refine ⟨ts, h1, h2, h3, fun i hi hex hlo hhi j hj => ?_⟩
+            (fun l => c.get l j) (ts.getD i 0) = x.get i j) ∧
+      c.size = b.numFunctions ∧ c.ncols = x.ncols ∧
+      ∀ m, (∀ i, i < x.size → (x.getD i #[]).size = m) → ∀ l, l < c.size → (c.getD l #[]).size = m := by
+  obtain ⟨ts, h1, h2, h3, h4, hd⟩ := C14_interpolate_curve_spec hv htol t x c h
+  refine ⟨ts, h1, h2, h3, fun i hi hex hlo hhi j hj => ?_, hd⟩
   have hadm : b.Admissible tol (ts.getD i 0) :=
     ⟨hex, fun _ => ⟨hlo, hhi⟩, fun h0 => by rw [hper] at h0; exact absurd h0 (by decide)⟩
   rw [← h4 i hi hadm j hj]
   unfold splineVal
   exact sum_congr rfl (fun l _ => by rw [Basis.specRow_nonperiodic hper, mul_comm])
+
+/-- **Rows are one-sided derivatives of the result** (bridge for the `cubic_curve` end rows).  For a
+valid non-periodic basis, an exact parameter `t` of the domain and `d < order`, the row sum
+`Σ_l N_l^{(d)}(t) · c_l` formed with the model's `Basis.evaluate … d` IS the `d`-th one-sided derivative
+`splineDeriv` of the spline `Σ_l c_l B_l` of the specification at `t` (from the right, at the domain end
+from the left) — C01.  Composed with `C14_cubic_TANGENT / _HERMITE / _TANGENTNATURAL / _NATURAL` the end
+rows say: the first derivative of the result equals the prescribed tangent, the second derivative
+vanishes. -/
+theorem C14_row_is_splineDeriv {b : Basis K} (hv : b.Valid) (hper : b.periodic = -1) {tol t : K}
+    (htol : 0 < tol) (hex : b.ExactAt tol t) (h1 : b.start ≤ t) (h2 : t ≤ b.stop) {d : ℕ} (hd : d < b.order)
+    (c : ℕ → K) :
+    ∑ l ∈ range b.numFunctions, (b.evaluate tol t d true).getD l 0 * c l
+      = splineDeriv (effSide b t true) b.kn (b.order - 1) b.numFunctions c d t := by
+  unfold splineDeriv
+  apply sum_congr rfl
+  intro l hl
+  rw [C01_value_deriv_open hv hper htol hex h1 h2 (by simp) hd (mem_range.mp hl), mul_comm]
+
+/-- **Closed `C²` seam of `cubic_curve(…, PERIODIC)`** (partial).  The model's result has `order = 4`
+and `periodic = 2` (`C14_cubic_boundary`).  For every bi-infinite periodic continuation `τ` (period
+`T`, `n = numFunctions` knots per period) of its knot vector with a simple seam knot and the periodic
+continuation `c` of a column of control points, value, first and second derivative agree across the
+seam (`C08_seam_smooth`, `q = 3`, `m = 1`).  Missing: the identification of the continuation with the
+model's wrapped evaluation (C01 periodic sums) is C08's subject and is not re-proved here. -/
+theorem C14_cubic_PERIODIC_seam_partial (tol rt atl : K) (x : Mat K) (t : List K) (tg : Option (Mat K))
+    (basis : Basis K) (cp : Mat K) (h : cubicCurve bPERIODIC tol rt atl x t tg = .ok (basis, cp))
+    (τ : ℕ → K) (hτ : Monotone τ) (T : K) (hT : 0 < T)
+    (hagree : ∀ i, i < basis.knots.size → τ i = basis.kn i)
+    (hperiod : ∀ i, τ (i + basis.numFunctions) = τ i + T)
+    (hseam : ∀ j, τ j = τ 3 → τ (j + 1) ≠ τ 3)
+    (c : ℕ → K) (hc : ∀ i, c (i + basis.numFunctions) = c i)
+    (N : ℕ) (hN : τ 3 + T ≤ τ N) (hnN : basis.numFunctions ≤ N) (d : ℕ) (hd : d ≤ 2) :
+    basis.order = 4 ∧ basis.periodic = 2 ∧
+    splineDeriv .left τ 3 N c d (τ 3 + T) = splineDeriv .right τ 3 N c d (τ 3) := by
+  obtain ⟨_, _, _, ho, hp, _⟩ := C14_cubic_boundary _ _ _ _ _ _ _ _ _ h
+  simp only [if_true] at hp
+  exact ⟨ho, hp, periodic_seam_smooth τ hτ basis.numFunctions T hperiod c hc 3 1 d N hT (by omega) hseam hN hnN⟩
 
 /-- **The returned curve object evaluates to the data** (through C02): `Curve(basis, cp)` evaluated by
 the model's `SplineObject.evaluate` at the interpolation parameters gives back `x`. -/
@@ -922,9 +1162,10 @@ theorem C14_interpolate_curve_evaluate {b : Basis K} (hv : b.Valid) {tol : K} (h
     (t : Option (List K)) (x c : Mat K) (h : interpolateCurve b tol t x = .ok c) :
     ∃ ts, paramsOrGreville b t = .ok ts ∧
       ((∀ u ∈ ts, b.Admissible tol u) → ts ≠ [] →
-        ∃ res, (curveOf b c).evaluate tol [ts] true = .ok res ∧ res.shape = [ts.length, c.ncols] ∧
-          ∀ i < ts.length, ∀ j < c.ncols, res.get (i * c.ncols + j) = x.get i j) := by
-  obtain ⟨ts, h1, h2, h3, h4⟩ := C14_interpolate_curve_spec hv htol t x c h
+        ∃ res, (curveOf b c).evaluate tol [ts] true = .ok res ∧ res.shape = [ts.length, x.ncols] ∧
+          ∀ i < ts.length, ∀ j < x.ncols, res.get (i * x.ncols + j) = x.get i j) := by
+  obtain ⟨ts, h1, h2, h3, h4, _, hcols, _⟩ := C14_interpolate_curve_spec hv htol t x c h
+  rw [← hcols]
   refine ⟨ts, h1, fun hadm hne => ?_⟩
   have hcsize : c.size = b.numFunctions := by
     unfold interpolateCurve at h
@@ -936,7 +1177,7 @@ theorem C14_interpolate_curve_evaluate {b : Basis K} (hv : b.Valid) {tol : K} (h
       unfold Mat.ncols
       rw [row_colloc b tol ts 0 0 (List.length_pos_of_ne_nil hne), size_evaluate_c14]
   obtain ⟨res, r1, r2, _, r4⟩ := Obj.evaluate1_spec_nonrational (o := curveOf b c) (b1 := b) rfl hv
-    (nc := c.ncols) (by unfold curveOf matTensor; rw [hcsize]) rfl htol hadm
+    (nc := c.ncols) (by unfold curveOf matTensor; rw [hcsize]) rfl htol hadm (fun _ => hne)
   refine ⟨res, r1, r2, fun i hi j hj => ?_⟩
   rw [r4 i j hi hj, ← h4 i hi (hadm _ (by simp [List.getD_eq_getElem?_getD, hi])) j hj]
   apply sum_congr rfl
@@ -982,30 +1223,156 @@ theorem C14_interpolate_surface_spec {bu bv : Basis K} (hvu : bu.Valid) (hvv : b
   intro b hb
   rw [get_colloc bv tol tv 0 j b hj, evaluate_getD_eq_specRow_c14 hvv htol (hav j hj) (by rw [← h6]; exact mem_range.mp hb)]
 
+/-- **The returned `Surface` evaluates to the data** (through C02): the model's
+`SplineObject.evaluate` of `Surface(b_u, b_v, cp)` on the parameter grid gives back `x[i][j]`. -/
+theorem C14_interpolate_surface_evaluate {bu bv : Basis K} (hvu : bu.Valid) (hvv : bv.Valid) {tol : K}
+    (htol : 0 < tol) (u : Option (List (List K))) (tu tv : List K) (x cp : Tensor K)
+    (hp : gridParams [bu, bv] u = .ok [tu, tv]) (htu : tu ≠ []) (htv : tv ≠ [])
+    (hx : x.shape.length = 2 ∨ x.shape.length = 3)
+    (hau : ∀ t ∈ tu, bu.Admissible tol t) (hav : ∀ t ∈ tv, bv.Admissible tol t)
+    (h : interpolateGridCore [bu, bv] tol u x = .ok cp)
+    (hneA1 : bu.periodic < 0 → tu ≠ [] := by (first | assumption | (simp; done) | skip))
+    (hneA2 : bv.periodic < 0 → tv ≠ [] := by (first | assumption | (simp; done) | skip)) :
+    ∃ (x' : Tensor K) (d : ℕ) (res : Tensor K), gridInput [bu, bv] x = .ok x' ∧ x'.data = x.data ∧
+      x'.shape = [tu.length, tv.length, d] ∧
+      (gridOf [bu, bv] cp).evaluate tol [tu, tv] true = .ok res ∧ res.shape = [tu.length, tv.length, d] ∧
+      ∀ i < tu.length, ∀ j < tv.length, ∀ k < d,
+        res.get ((i * tv.length + j) * d + k) = x'.entry3 tv.length d i j k := by
+  have hau' : ∀ i < tu.length, bu.Admissible tol (tu.getD i 0) := fun i hi =>
+    hau _ (by rw [List.getD_eq_getElem?_getD, List.getElem?_eq_getElem hi]; exact List.getElem_mem _)
+  have hav' : ∀ j < tv.length, bv.Admissible tol (tv.getD j 0) := fun j hj =>
+    hav _ (by rw [List.getD_eq_getElem?_getD, List.getElem?_eq_getElem hj]; exact List.getElem_mem _)
+  obtain ⟨x', d, h1, h2, h3, h4, h5⟩ := C14_interpolate_surface_spec hvu hvv htol u tu tv x cp hp htu htv hx hau' hav' h
+  obtain ⟨res, r1, r2, _, r4⟩ := Obj.evaluate2_spec_nonrational (o := gridOf [bu, bv] cp) (b1 := bu) (b2 := bv) rfl
+    hvu hvv (nc := d) h4 rfl htol hau hav
+  refine ⟨x', d, res, h1, h2, h3, r1, r2, fun i hi j hj k hk => ?_⟩
+  rw [r4 i j k hi hj hk, ← h5 i hi j hj k hk]
+  apply sum_congr rfl
+  intro a _
+  rw [mul_sum]
+  apply sum_congr rfl
+  intro b _
+  unfold gridOf Tensor.entry3
+  ring
+
+/-- **Volume interpolation in specification terms**: `Σ_a Σ_b Σ_c N_a(u_i) M_b(v_j) L_c(w_k) · cp[a][b][c]
+= x[i][j][k]` with the B-splines of the specification, for valid bases and admissible parameters. -/
+theorem C14_interpolate_volume_spec {bu bv bw : Basis K} (hvu : bu.Valid) (hvv : bv.Valid) (hvw : bw.Valid)
+    {tol : K} (htol : 0 < tol) (u : Option (List (List K))) (tu tv tw : List K) (x cp : Tensor K)
+    (hp : gridParams [bu, bv, bw] u = .ok [tu, tv, tw]) (htu : tu ≠ []) (htv : tv ≠ []) (htw : tw ≠ [])
+    (hx : x.shape.length = 2 ∨ x.shape.length = 4)
+    (hau : ∀ i < tu.length, bu.Admissible tol (tu.getD i 0))
+    (hav : ∀ j < tv.length, bv.Admissible tol (tv.getD j 0))
+    (haw : ∀ k < tw.length, bw.Admissible tol (tw.getD k 0))
+    (h : interpolateGridCore [bu, bv, bw] tol u x = .ok cp) :
+    ∃ (x' : Tensor K) (d : ℕ), gridInput [bu, bv, bw] x = .ok x' ∧ x'.data = x.data ∧
+      x'.shape = [tu.length, tv.length, tw.length, d] ∧
+      cp.shape = [bu.numFunctions, bv.numFunctions, bw.numFunctions, d] ∧
+      ∀ i < tu.length, ∀ j < tv.length, ∀ k < tw.length, ∀ l < d,
+        ∑ a ∈ range bu.numFunctions, bu.specRow (tu.getD i 0) a *
+          ∑ b ∈ range bv.numFunctions, bv.specRow (tv.getD j 0) b *
+            ∑ c ∈ range bw.numFunctions, bw.specRow (tw.getD k 0) c *
+              cp.entry4 bv.numFunctions bw.numFunctions d a b c l
+          = x'.entry4 tv.length tw.length d i j k l := by
+  obtain ⟨x', d, h1, h2, h3, h4, _, h5, h6, h7, h8⟩ :=
+    C14_interpolate_volume bu bv bw tol u tu tv tw x cp hp htu htv htw hx h
+  refine ⟨x', d, h1, h2, h3, by rw [h4, h5, h6, h7], fun i hi j hj k hk l hl => ?_⟩
+  rw [← h8 i hi j hj k hk l hl]
+  have hNu : (colloc bu tol tu 0).size = tu.length := size_colloc _ _ _ _
+  have hNv : (colloc bv tol tv 0).size = tv.length := size_colloc _ _ _ _
+  have hNw : (colloc bw tol tw 0).size = tw.length := size_colloc _ _ _ _
+  obtain ⟨hs2, he2⟩ := Tensor.applyAxis4_2 (colloc bw tol tw 0) cp h4
+  rw [hNw] at hs2 he2
+  obtain ⟨hs1, he1⟩ := Tensor.applyAxis4_1 (colloc bv tol tv 0) _ hs2
+  rw [hNv] at hs1 he1
+  obtain ⟨_, he0⟩ := Tensor.applyAxis4_0 (colloc bu tol tu 0) _ hs1
+  rw [hNu] at he0
+  rw [he0 i hi j hj k hk l hl, ← h5]
+  apply sum_congr rfl
+  intro a ha
+  rw [get_colloc bu tol tu 0 i a hi,
+    evaluate_getD_eq_specRow_c14 hvu htol (hau i hi) (by rw [← h5]; exact mem_range.mp ha),
+    he1 a (mem_range.mp ha) j hj k hk l hl, ← h6]
+  congr 1
+  apply sum_congr rfl
+  intro b hb
+  rw [get_colloc bv tol tv 0 j b hj,
+    evaluate_getD_eq_specRow_c14 hvv htol (hav j hj) (by rw [← h6]; exact mem_range.mp hb),
+    he2 a (mem_range.mp ha) b (mem_range.mp hb) k hk l hl, ← h7]
+  congr 1
+  apply sum_congr rfl
+  intro c hc
+  rw [get_colloc bw tol tw 0 k c hk,
+    evaluate_getD_eq_specRow_c14 hvw htol (haw k hk) (by rw [← h7]; exact mem_range.mp hc)]
+
+/-- **The returned `Volume` evaluates to the data** (through C02). -/
+theorem C14_interpolate_volume_evaluate {bu bv bw : Basis K} (hvu : bu.Valid) (hvv : bv.Valid)
+    (hvw : bw.Valid) {tol : K} (htol : 0 < tol) (u : Option (List (List K))) (tu tv tw : List K)
+    (x cp : Tensor K)
+    (hp : gridParams [bu, bv, bw] u = .ok [tu, tv, tw]) (htu : tu ≠ []) (htv : tv ≠ []) (htw : tw ≠ [])
+    (hx : x.shape.length = 2 ∨ x.shape.length = 4)
+    (hau : ∀ t ∈ tu, bu.Admissible tol t) (hav : ∀ t ∈ tv, bv.Admissible tol t)
+    (haw : ∀ t ∈ tw, bw.Admissible tol t)
+    (h : interpolateGridCore [bu, bv, bw] tol u x = .ok cp)
+    (hneA1 : bu.periodic < 0 → tu ≠ [] := by (first | assumption | (simp; done) | skip))
+    (hneA2 : bv.periodic < 0 → tv ≠ [] := by (first | assumption | (simp; done) | skip))
+    (hneA3 : bw.periodic < 0 → tw ≠ [] := by (first | assumption | (simp; done) | skip)) :
+    ∃ (x' : Tensor K) (d : ℕ) (res : Tensor K), gridInput [bu, bv, bw] x = .ok x' ∧ x'.data = x.data ∧
+      x'.shape = [tu.length, tv.length, tw.length, d] ∧
+      (gridOf [bu, bv, bw] cp).evaluate tol [tu, tv, tw] true = .ok res ∧
+      res.shape = [tu.length, tv.length, tw.length, d] ∧
+      ∀ i < tu.length, ∀ j < tv.length, ∀ k < tw.length, ∀ l < d,
+        res.get (((i * tv.length + j) * tw.length + k) * d + l) = x'.entry4 tv.length tw.length d i j k l := by
+  have mem : ∀ (l : List K) (i : ℕ), i < l.length → l.getD i 0 ∈ l := fun l i hi => by
+    rw [List.getD_eq_getElem?_getD, List.getElem?_eq_getElem hi]; exact List.getElem_mem _
+  obtain ⟨x', d, h1, h2, h3, h4, h5⟩ := C14_interpolate_volume_spec hvu hvv hvw htol u tu tv tw x cp hp htu htv htw hx
+    (fun i hi => hau _ (mem tu i hi)) (fun j hj => hav _ (mem tv j hj)) (fun k hk => haw _ (mem tw k hk)) h
+  obtain ⟨res, r1, r2, _, r4⟩ := Obj.evaluate3_spec_nonrational (o := gridOf [bu, bv, bw] cp)
+    (b1 := bu) (b2 := bv) (b3 := bw) rfl hvu hvv hvw (nc := d) h4 rfl htol hau hav haw
+  refine ⟨x', d, res, h1, h2, h3, r1, r2, fun i hi j hj k hk l hl => ?_⟩
+  rw [r4 i j k l hi hj hk hl, ← h5 i hi j hj k hk l hl]
+  apply sum_congr rfl
+  intro a _
+  rw [mul_sum]
+  apply sum_congr rfl
+  intro b _
+  rw [mul_sum, mul_sum]
+  apply sum_congr rfl
+  intro c _
+  unfold gridOf Tensor.entry4
+  ring
+
 /-- **No solvability hypothesis (Schoenberg–Whitney), user parameters.**  Valid clamped non-periodic
-basis of order `p ≥ 2` with interior knot multiplicities `≤ p−1`; `n` exact parameters with
-`t₀ = start`, `t_{n−1} = end`, strictly increasing and nested with the supports
-(`τ_l < t_l < τ_{l+p}`); an `n × m` data matrix.  Then `curve_factory.interpolate` SUCCEEDS and the
+basis of order `p ≥ 2` with interior knot multiplicities `≤ p−1`; `n` exact, strictly increasing
+parameters nested with the supports, `τ_l < t_l < τ_{l+p}` (`GenNested`), where each END may
+alternatively be pinned: `t₀ = start` (`p0`), `t_{n−1} = end` (`p1`) — so parameters shifted inward
+from the ends are covered as well as the Greville-like ones; an `n × m` data matrix.  Then `curve_factory.interpolate` SUCCEEDS and the
 resulting spline of the specification passes through every point. -/
 theorem C14_interpolate_curve_nested {b : Basis K} (hv : b.Valid) (hper : b.periodic = -1)
     (hp : 2 ≤ b.order) (hc0 : b.kn 0 = b.kn (b.order - 1))
     (hc1 : b.kn b.numFunctions = b.kn (b.numFunctions + (b.order - 1)))
     (hmult : ∀ i, 1 ≤ i → i < b.numFunctions → b.kn i < b.kn (i + (b.order - 1)))
-    {tol : K} (htol : 0 < tol) (ts : List K) (hlen : ts.length = b.numFunctions)
-    (hx : NestedPts b.kn (b.order - 1) b.numFunctions (fun l => ts.getD l 0))
+    {tol : K} (htol : 0 < tol) (ts : List K) (hlen : ts.length = b.numFunctions) (p0 p1 : Bool)
+    (hx : GenNested b.kn (b.order - 1) b.numFunctions (fun l => ts.getD l 0) p0 p1)
     (hex : ∀ l, l < b.numFunctions → b.ExactAt tol (ts.getD l 0))
     (x : Mat K) (m : ℕ) (hxs : x.size = b.numFunctions ∧ ∀ i, i < b.numFunctions → (x.getD i #[]).size = m) :
     ∃ c, interpolateCurve b tol (some ts) x = .ok c ∧
-      ∀ i < b.numFunctions, ∀ j < c.ncols,
+      c.size = b.numFunctions ∧ (∀ l, l < b.numFunctions → (c.getD l #[]).size = m) ∧
+      ∀ i < b.numFunctions, ∀ j < m,
         splineVal (effSide b (ts.getD i 0) true) b.kn (b.order - 1) b.numFunctions
           (fun l => c.get l j) (ts.getD i 0) = x.get i j := by
-  obtain ⟨c, hc⟩ := interpolateCurve_ok_of_nested hv hper hp hc0 hc1 hmult htol ts hlen hx hex x m hxs
-  refine ⟨c, hc, fun i hi j hj => ?_⟩
-  obtain ⟨ts', e1, _, _, e4⟩ := C14_interpolate_curve_splineVal hv hper htol (some ts) x c hc
+  obtain ⟨c, hc⟩ := interpolateCurve_ok_of_gen_nested hv hper hp hc0 hc1 hmult htol ts hlen p0 p1 hx hex x m hxs
+  obtain ⟨ts', e1, _, _, e4, dsz, dcols, drows⟩ := C14_interpolate_curve_splineVal hv hper htol (some ts) x c hc
   have : ts' = ts := by unfold paramsOrGreville at e1; cases e1; rfl
   subst this
-  obtain ⟨d1, d2⟩ := nested_in_domain hper _ hx i hi
-  exact e4 i (by omega) (hex i hi) d1 d2 j hj
+  have hnpos : 0 < b.numFunctions := by
+    have := hv.order_le_nAll
+    have := Basis.numFunctions_of_nonperiodic hper
+    omega
+  have hxc : x.ncols = m := hxs.2 0 hnpos
+  refine ⟨c, hc, dsz, fun l hl => drows m (fun i hi => hxs.2 i (by omega)) l (by omega), fun i hi j hj => ?_⟩
+  obtain ⟨d1, d2, _⟩ := gen_nested_in_domain hv hper hc0 hc1 _ p0 p1 hx i hi
+  exact e4 i (by omega) (hex i hi) d1 d2 j (by rw [dcols, hxc]; exact hj)
 
 /-- **No solvability hypothesis, default Greville parameters.**  For a valid clamped non-periodic
 basis of order ≥ 2 with continuous splines (interior multiplicities ≤ p−1) whose Greville points are
@@ -1019,7 +1386,8 @@ theorem C14_interpolate_curve_greville {b : Basis K} (hv : b.Valid) (hper : b.pe
     (hex : ∀ l, l < b.numFunctions → b.ExactAt tol (grevilleAbscissa b.kn (b.order - 1) l))
     (x : Mat K) (m : ℕ) (hxs : x.size = b.numFunctions ∧ ∀ i, i < b.numFunctions → (x.getD i #[]).size = m) :
     ∃ c, interpolateCurve b tol none x = .ok c ∧
-      ∀ i < b.numFunctions, ∀ j < c.ncols,
+      c.size = b.numFunctions ∧ (∀ l, l < b.numFunctions → (c.getD l #[]).size = m) ∧
+      ∀ i < b.numFunctions, ∀ j < m,
         splineVal (effSide b (grevilleAbscissa b.kn (b.order - 1) i) true) b.kn (b.order - 1) b.numFunctions
           (fun l => c.get l j) (grevilleAbscissa b.kn (b.order - 1) i) = x.get i j := by
   have hg := sw_greville_eq b hp
@@ -1037,9 +1405,9 @@ theorem C14_interpolate_curve_greville {b : Basis K} (hv : b.Valid) (hper : b.pe
   have hG := greville_nestedPts b.kn hτ (b.order - 1) b.numFunctions (by omega) hn hc0 hc1 hmult
   have hx : NestedPts b.kn (b.order - 1) b.numFunctions (fun l => pts.toList.getD l 0) :=
     NestedPts.congr_c14 (by omega) hG hget
-  obtain ⟨c, hc, hval⟩ := C14_interpolate_curve_nested hv hper hp hc0 hc1 hmult htol pts.toList hlen hx
-    (fun l hl => by rw [hget l hl]; exact hex l hl) x m hxs
-  refine ⟨c, by rw [interpolateCurve_none b tol x pts hg]; exact hc, fun i hi j hj => ?_⟩
+  obtain ⟨c, hc, hs1, hs2, hval⟩ := C14_interpolate_curve_nested hv hper hp hc0 hc1 hmult htol pts.toList hlen
+    true true (Interp.NestedPts.toGen hx) (fun l hl => by rw [hget l hl]; exact hex l hl) x m hxs
+  refine ⟨c, by rw [interpolateCurve_none b tol x pts hg]; exact hc, hs1, hs2, fun i hi j hj => ?_⟩
   have := hval i hi j hj
   rw [hget i hi] at this
   exact this
@@ -1047,7 +1415,8 @@ theorem C14_interpolate_curve_greville {b : Basis K} (hv : b.Valid) (hper : b.pe
 /-- **`least_square_fit` needs no solvability hypothesis.**  Valid clamped non-periodic basis of order
 `p ≥ 2` with continuous splines; `m ≥ n` sample points `ts` that CONTAIN (at positions
 `idx 0, …, idx (n−1)`) exact nested collocation points in the sense of Schoenberg–Whitney
-(`NestedPts`: first = domain start, last = domain end, increasing, `τ_l < t_{idx l} < τ_{l+p}`); any
+(`GenNested`: increasing, `τ_l < t_{idx l} < τ_{l+p}`, each end alternatively pinned to the domain
+start/end); any
 `m × dim` data.  Then the collocation matrix has full column rank, `NᵀN` is invertible
 (`xᵀNᵀNx = Σ (Nx)ᵢ²` over an ordered field), and the model's Gauss–Jordan solve of the normal
 equations SUCCEEDS. -/
@@ -1055,13 +1424,13 @@ theorem C14_lsq_exists {b : Basis K} (hv : b.Valid) (hper : b.periodic = -1)
     (hp : 2 ≤ b.order) (hc0 : b.kn 0 = b.kn (b.order - 1))
     (hc1 : b.kn b.numFunctions = b.kn (b.numFunctions + (b.order - 1)))
     (hmult : ∀ i, 1 ≤ i → i < b.numFunctions → b.kn i < b.kn (i + (b.order - 1)))
-    {tol : K} (htol : 0 < tol) (ts : List K) (idx : ℕ → ℕ)
+    {tol : K} (htol : 0 < tol) (ts : List K) (idx : ℕ → ℕ) (p0 p1 : Bool)
     (hidx : ∀ l, l < b.numFunctions → idx l < ts.length)
-    (hx : NestedPts b.kn (b.order - 1) b.numFunctions (fun l => ts.getD (idx l) 0))
+    (hx : GenNested b.kn (b.order - 1) b.numFunctions (fun l => ts.getD (idx l) 0) p0 p1)
     (hex : ∀ l, l < b.numFunctions → b.ExactAt tol (ts.getD (idx l) 0))
     (x : Mat K) (m : ℕ) (hxs : x.size = ts.length ∧ ∀ i, i < ts.length → (x.getD i #[]).size = m) :
     ∃ c, leastSquareCurve b tol ts x = .ok c :=
-  leastSquareCurve_ok hv hper hp hc0 hc1 hmult htol ts idx hidx hx hex x m hxs
+  leastSquareCurve_ok hv hper hp hc0 hc1 hmult htol ts idx p0 p1 hidx hx hex x m hxs
 
 /-- **Least squares reproduces splines of the space — no solvability hypothesis.**  Under the
 hypotheses of `C14_lsq_exists`, if the data are sampled from a spline of the target space,
@@ -1070,18 +1439,18 @@ theorem C14_lsq_reproduces {b : Basis K} (hv : b.Valid) (hper : b.periodic = -1)
     (hp : 2 ≤ b.order) (hc0 : b.kn 0 = b.kn (b.order - 1))
     (hc1 : b.kn b.numFunctions = b.kn (b.numFunctions + (b.order - 1)))
     (hmult : ∀ i, 1 ≤ i → i < b.numFunctions → b.kn i < b.kn (i + (b.order - 1)))
-    {tol : K} (htol : 0 < tol) (ts : List K) (idx : ℕ → ℕ)
+    {tol : K} (htol : 0 < tol) (ts : List K) (idx : ℕ → ℕ) (p0 p1 : Bool)
     (hidx : ∀ l, l < b.numFunctions → idx l < ts.length)
-    (hx : NestedPts b.kn (b.order - 1) b.numFunctions (fun l => ts.getD (idx l) 0))
+    (hx : GenNested b.kn (b.order - 1) b.numFunctions (fun l => ts.getD (idx l) 0) p0 p1)
     (hex : ∀ l, l < b.numFunctions → b.ExactAt tol (ts.getD (idx l) 0))
     (x : Mat K) (m : ℕ) (hxs : x.size = ts.length ∧ ∀ i, i < ts.length → (x.getD i #[]).size = m)
     (c0 : ℕ → ℕ → K)
     (hdata : ∀ i < ts.length, ∀ j, x.get i j =
       ∑ l ∈ range b.numFunctions, (b.evaluate tol (ts.getD i 0) 0 true).getD l 0 * c0 l j) :
-    ∃ c, leastSquareCurve b tol ts x = .ok c ∧
-      ∀ l < b.numFunctions, ∀ j < c.ncols, c.get l j = c0 l j := by
-  obtain ⟨c, hc⟩ := leastSquareCurve_ok hv hper hp hc0 hc1 hmult htol ts idx hidx hx hex x m hxs
-  obtain ⟨_, _, Gi, hGi⟩ := normal_invC_ok hv hper hp hc0 hc1 hmult htol ts idx hidx hx hex
+    ∃ c, leastSquareCurve b tol ts x = .ok c ∧ c.size = b.numFunctions ∧ c.ncols = m ∧
+      ∀ l < b.numFunctions, ∀ j < m, c.get l j = c0 l j := by
+  obtain ⟨c, hc⟩ := leastSquareCurve_ok hv hper hp hc0 hc1 hmult htol ts idx p0 p1 hidx hx hex x m hxs
+  obtain ⟨_, _, Gi, hGi⟩ := normal_invC_ok hv hper hp hc0 hc1 hmult htol ts idx p0 p1 hidx hx hex
   have hn : 0 < b.numFunctions := by
     have := hv.order_le_nAll
     have := Basis.numFunctions_of_nonperiodic hper
@@ -1091,7 +1460,13 @@ theorem C14_lsq_reproduces {b : Basis K} (hv : b.Valid) (hper : b.periodic = -1)
     have := hidx 0 hn
     rw [h0] at this
     simp at this
-  exact ⟨c, hc, C14_projection_least_squares b tol ts x c Gi c0 hne hGi hdata hc⟩
+  obtain ⟨p1, p2⟩ := C14_projection_least_squares b tol ts x c Gi c0 hne hGi hdata hc
+  obtain ⟨q1, q2⟩ := p2 hn
+  have hxm : x.ncols = m := hxs.2 0 (by
+    rcases Nat.eq_zero_or_pos ts.length with h0 | h0
+    · exact absurd (List.eq_nil_of_length_eq_zero h0) hne
+    · exact h0)
+  exact ⟨c, hc, q1, by rw [q2, hxm], fun l hl j hj => p1 l hl j (by rw [q2, hxm]; exact hj)⟩
 
 /-- Default Greville parameters without the exactness assumption: if distinct knots are at least
 `2(p−1)·tol` apart (so that `snap` cannot destroy the nesting), interpolation SUCCEEDS. -/
@@ -1126,6 +1501,33 @@ theorem C14_interpolate_surface_greville_succeeds {bu bv : Basis K}
     ∃ cp, interpolateGrid [bu, bv] tol none x = .ok cp ∧ interpolateGridCore [bu, bv] tol none x = .ok cp :=
   interpolateGrid_ok_greville_surface hvu hperu hpu hc0u hc1u hmultu hvv hperv hpv hc0v hc1v hmultv htol
     hgapu hgapv x d hx
+
+/-- **No solvability hypothesis for volumes at the default Greville parameters** (three valid clamped
+continuous non-periodic bases, knot gaps ≥ `2(p−1)·tol`, either input layout): `volume_factory.interpolate`
+SUCCEEDS and returns the control net of its linear-algebra core (`C14_interpolate_volume(_spec)`). -/
+theorem C14_interpolate_volume_greville_succeeds {bu bv bw : Basis K}
+    (hvu : bu.Valid) (hperu : bu.periodic = -1) (hpu : 2 ≤ bu.order)
+    (hc0u : bu.kn 0 = bu.kn (bu.order - 1))
+    (hc1u : bu.kn bu.numFunctions = bu.kn (bu.numFunctions + (bu.order - 1)))
+    (hmultu : ∀ i, 1 ≤ i → i < bu.numFunctions → bu.kn i < bu.kn (i + (bu.order - 1)))
+    (hvv : bv.Valid) (hperv : bv.periodic = -1) (hpv : 2 ≤ bv.order)
+    (hc0v : bv.kn 0 = bv.kn (bv.order - 1))
+    (hc1v : bv.kn bv.numFunctions = bv.kn (bv.numFunctions + (bv.order - 1)))
+    (hmultv : ∀ i, 1 ≤ i → i < bv.numFunctions → bv.kn i < bv.kn (i + (bv.order - 1)))
+    (hvw : bw.Valid) (hperw : bw.periodic = -1) (hpw : 2 ≤ bw.order)
+    (hc0w : bw.kn 0 = bw.kn (bw.order - 1))
+    (hc1w : bw.kn bw.numFunctions = bw.kn (bw.numFunctions + (bw.order - 1)))
+    (hmultw : ∀ i, 1 ≤ i → i < bw.numFunctions → bw.kn i < bw.kn (i + (bw.order - 1)))
+    {tol : K} (htol : 0 < tol)
+    (hgapu : ∀ i j, bu.kn i < bu.kn j → bu.kn i + 2 * ((bu.order - 1 : ℕ) : K) * tol ≤ bu.kn j)
+    (hgapv : ∀ i j, bv.kn i < bv.kn j → bv.kn i + 2 * ((bv.order - 1 : ℕ) : K) * tol ≤ bv.kn j)
+    (hgapw : ∀ i j, bw.kn i < bw.kn j → bw.kn i + 2 * ((bw.order - 1 : ℕ) : K) * tol ≤ bw.kn j)
+    (x : Tensor K) (d : ℕ)
+    (hx : x.shape = [bu.numFunctions * bv.numFunctions * bw.numFunctions, d] ∨
+          x.shape = [bu.numFunctions, bv.numFunctions, bw.numFunctions, d]) :
+    ∃ cp, interpolateGrid [bu, bv, bw] tol none x = .ok cp ∧ interpolateGridCore [bu, bv, bw] tol none x = .ok cp :=
+  interpolateGrid_ok_greville_volume hvu hperu hpu hc0u hc1u hmultu hvv hperv hpv hc0v hc1v hmultv
+    hvw hperw hpw hc0w hc1w hmultw htol hgapu hgapv hgapw x d hx
 
 /-- **Periodic interpolation, dominant diagonal** (partial: a sufficient condition, not all
 non-singular periodic collocation problems).  For a valid periodic basis and `n` exact parameters
@@ -1237,7 +1639,8 @@ private theorem bq_valid : bq.Valid where
   ghosts := fun h => absurd h (by decide)
 
 example : ∃ c, interpolateCurve bq tolQ none pts4 = .ok c ∧
-    ∀ i < bq.numFunctions, ∀ j < c.ncols,
+    c.size = bq.numFunctions ∧ (∀ l, l < bq.numFunctions → (c.getD l #[]).size = 2) ∧
+    ∀ i < bq.numFunctions, ∀ j < 2,
       splineVal (effSide bq (grevilleAbscissa bq.kn (bq.order - 1) i) true) bq.kn (bq.order - 1) bq.numFunctions
         (fun l => c.get l j) (grevilleAbscissa bq.kn (bq.order - 1) i) = pts4.get i j := by
   have hn : bq.numFunctions = 4 := by decide
@@ -1280,7 +1683,7 @@ example : ∃ c, leastSquareCurve bl tolQ [0, 1/2, 1] #[#[0], #[1], #[2]] = .ok 
       intro i h1 h2
       rw [hn] at h2
       interval_cases i; norm_num [Basis.kn, bl])
-    (by norm_num [tolQ]) [0, 1/2, 1] (fun l => 2 * l) _ _ _ #[#[0], #[1], #[2]] 1
+    (by norm_num [tolQ]) [0, 1/2, 1] (fun l => 2 * l) true true _ _ _ #[#[0], #[1], #[2]] 1
   · refine ⟨rfl, fun i hi => ?_⟩
     have hi' : i < 3 := hi
     interval_cases i <;> rfl
@@ -1342,5 +1745,31 @@ example : ∃ c, interpolateCurve bper tolQ none pts4 = .ok c := by
   refine ⟨by rw [hn]; rfl, fun i hi => ?_⟩
   rw [hn] at hi
   interval_cases i <;> rfl
+
+-- C14_interpolate_curve_nested with BOTH ENDS SHIFTED INWARD (open nesting, `p0 = p1 = false`)
+example : ∃ c, interpolateCurve bq tolQ (some [1/8, 1/2, 3/2, 15/8]) pts4 = .ok c ∧
+    c.size = bq.numFunctions ∧ (∀ l, l < bq.numFunctions → (c.getD l #[]).size = 2) ∧
+    ∀ i < bq.numFunctions, ∀ j < 2,
+      splineVal (effSide bq (([1/8, 1/2, 3/2, 15/8] : List ℚ).getD i 0) true) bq.kn (bq.order - 1) bq.numFunctions
+        (fun l => c.get l j) (([1/8, 1/2, 3/2, 15/8] : List ℚ).getD i 0) = pts4.get i j := by
+  have hn : bq.numFunctions = 4 := by decide
+  apply C14_interpolate_curve_nested bq_valid (by decide) (by decide)
+    (by norm_num [Basis.kn, bq]) (by rw [hn]; norm_num [Basis.kn, bq])
+    (by
+      intro i h1 h2
+      rw [hn] at h2
+      interval_cases i <;> norm_num [Basis.kn, bq])
+    (by norm_num [tolQ]) [1/8, 1/2, 3/2, 15/8] (by rw [hn]; rfl) false false _ _ pts4 2
+  · refine ⟨by rw [hn]; rfl, fun i hi => ?_⟩
+    rw [hn] at hi
+    interval_cases i <;> rfl
+  · rw [hn]
+    exact { first := by norm_num [Basis.kn, bq], last := by norm_num [Basis.kn, bq],
+            lt_succ := fun l hl => by (have : l < 3 := by omega); interval_cases l <;> norm_num,
+            nest := fun l h1 h2 => by (have : l < 3 := by omega); interval_cases l <;> norm_num [Basis.kn, bq] }
+  · intro l hl i hi
+    rw [hn] at hl
+    have hi' : i < 7 := hi
+    interval_cases l <;> interval_cases i <;> norm_num [Basis.kn, bq, tolQ, abs_of_nonneg, abs_of_neg]
 
 end NonVacuity
